@@ -20,7 +20,7 @@ RULE = ("case = seed of a generated directory tree (depth <= 5, empty folders, u
         "both files and sub-folders; distinct by the generated listing")
 ASSUMPTIONS = ["the reference walk uses os.scandir/os.stat on the same directory",
                "name order = Python str ordering of the entry names (Path ordering of siblings coincides with it)",
-               "symlinks and special files are not generated"]
+               "symlinks are not generated; the only special files are named pipes (never opened)"]
 MECH = ["nutree.fs:load_tree_from_fs", "nutree.fs:FileSystemEntry.__init__", "nutree.fs:FileSystemTree.serialize_mapper",
         "nutree.fs:FileSystemTree.deserialize_mapper"]
 MIN_NONTRIVIAL = {"quick": 60, "thorough": 1500}
@@ -54,6 +54,13 @@ def make_dir(rng, root):
                 os.utime(p, (mt, mt))
 
     fill(root, 0)
+    if rng.random() < 0.08:
+        # an entry that is neither a file nor a directory (a named pipe): not part of the mirror
+        subdirs = [root] + [os.path.join(dp, d) for dp, dn, _ in os.walk(root) for d in dn]
+        try:
+            os.mkfifo(os.path.join(rng.choice(subdirs), rng.choice(["zz-pipe", "a-pipe", "M"])))
+        except OSError:
+            pass
     if rng.random() < 0.06:
         # a round number of entries: the tree ends up with exactly 1000 (or 2000) nodes
         want = 1000 if rng.random() < 0.7 else 2000
@@ -107,7 +114,8 @@ def mutate_dir(rng, root):
     files, dirs = [], [root]
     for dp, dn, fn in os.walk(root):
         for f in fn:
-            files.append(os.path.join(dp, f))
+            if os.path.isfile(os.path.join(dp, f)):  # (never open a named pipe)
+                files.append(os.path.join(dp, f))
         for d in dn:
             dirs.append(os.path.join(dp, d))
     done = []
@@ -234,6 +242,19 @@ def run_case(case, res):
             tb = _Tree.load(pth, mapper=FileSystemTree.deserialize_mapper)
             if tree_listing(tb) != got:
                 bad.append(f"Tree.load(mapper=FileSystemTree.deserialize_mapper) changed the listing: {tree_listing(tb)!r} vs {got!r}")
+            # sizes a larger file system would report (beyond 2**53: not representable as a double) survive the mappers:
+            # the entry is added to the *loaded* tree, which then goes through the same save / load
+            if case["seed"] % 4 == 0:
+                from nutree.fs import FileSystemEntry
+
+                big = rng.choice([2**53 + 1, 2**60 + 3, 2**63 - 1])
+                t2.add(FileSystemEntry("zz-huge.bin", size=big, mdate=1_600_000_000.25))
+                p_big = os.path.join(tmp, "big.json")
+                t2.save(p_big, mapper=FileSystemTree.serialize_mapper)
+                tb2 = FileSystemTree.load(p_big, mapper=FileSystemTree.deserialize_mapper)
+                res.count("huge_sizes_round_tripped")
+                if tree_listing(tb2) != tree_listing(t2):
+                    bad.append(f"save/load changed an entry of {big} bytes: {tree_listing(tb2)[-1]!r}")
             # default mappers of the class (no mapper argument)
             t.save(pth)
             t3 = FileSystemTree.load(pth)
